@@ -265,7 +265,7 @@ package freelist
 // Representation: forwardMap (start -> size), backwardMap (end -> size) and freemaps (size -> set of starts) describe
 // the same set of spans. hmspan(f, s, z): [s, s+z) is a registered span.
 //@ pure func hmspan(f *hashMap, s common.Pgid, z uint64) bool = has(f.forwardMap, s) && f.forwardMap[s] == z
-//@ pure func wfHM(f *hashMap) bool = f.forwardMap != nil && f.backwardMap != nil && f.freemaps != nil && (forall s common.Pgid :: has(f.forwardMap, s) ==> f.forwardMap[s] >= 1 && has(f.backwardMap, s + f.forwardMap[s] - 1) && f.backwardMap[s + f.forwardMap[s] - 1] == f.forwardMap[s]) && (forall e common.Pgid :: has(f.backwardMap, e) ==> f.backwardMap[e] >= 1 && f.backwardMap[e] <= e + 1 && has(f.forwardMap, e + 1 - f.backwardMap[e]) && f.forwardMap[e + 1 - f.backwardMap[e]] == f.backwardMap[e])
+//@ pure func wfHM(f *hashMap) bool = f.forwardMap != nil && f.backwardMap != nil && f.freemaps != nil && (forall s common.Pgid {f.forwardMap[s]} :: has(f.forwardMap, s) ==> f.forwardMap[s] >= 1 && has(f.backwardMap, s + f.forwardMap[s] - 1) && f.backwardMap[s + f.forwardMap[s] - 1] == f.forwardMap[s]) && (forall e common.Pgid {f.backwardMap[e]} :: has(f.backwardMap, e) ==> f.backwardMap[e] >= 1 && f.backwardMap[e] <= e + 1 && has(f.forwardMap, e + 1 - f.backwardMap[e]) && f.forwardMap[e + 1 - f.backwardMap[e]] == f.backwardMap[e]) && (forall s1 common.Pgid, s2 common.Pgid {f.forwardMap[s1], f.forwardMap[s2]} :: has(f.forwardMap, s1) && has(f.forwardMap, s2) && s1 < s2 ==> s1 + f.forwardMap[s1] <= s2)
 
 //@ pure func infm(f *hashMap, z uint64, s common.Pgid) bool = has(f.freemaps, z) && has(f.freemaps[z], s)
 //@ pure func sepfm(f *hashMap) bool = (forall z1 uint64, z2 uint64 :: z1 != z2 && has(f.freemaps, z1) && has(f.freemaps, z2) ==> f.freemaps[z1] != f.freemaps[z2]) && (forall z uint64 :: has(f.freemaps, z) ==> f.freemaps[z] != nil && f.freemaps[z] != f.cache)
@@ -277,9 +277,11 @@ package freelist
 //@   ensures [fm] forall z uint64, s common.Pgid :: infm(f, z, s) == (old(infm(f, z, s)) || (z == size && s == start))
 //@   ensures [cache] f.cache == old(f.cache) && (forall p common.Pgid :: has(f.cache, p) == old(has(f.cache, p)))
 //@   requires f.forwardMap != nil && f.backwardMap != nil && f.freemaps != nil && f.forwardMap != f.backwardMap && size >= 1 && start + size <= 18446744073709551615
-//@   ensures [fwd] forall s common.Pgid :: has(f.forwardMap, s) == (old(has(f.forwardMap, s)) || s == start) && (s != start ==> f.forwardMap[s] == old(f.forwardMap[s]))
+//@   ensures [fwd] forall s common.Pgid {has(f.forwardMap, s)} :: has(f.forwardMap, s) == (old(has(f.forwardMap, s)) || s == start)
+//@   ensures [fwdval] forall s common.Pgid {f.forwardMap[s]} :: s != start ==> f.forwardMap[s] == old(f.forwardMap[s])
 //@   ensures [fwdnew] f.forwardMap[start] == size
-//@   ensures [bwd] forall e common.Pgid :: has(f.backwardMap, e) == (old(has(f.backwardMap, e)) || e == start + size - 1) && (e != start + size - 1 ==> f.backwardMap[e] == old(f.backwardMap[e]))
+//@   ensures [bwd] forall e common.Pgid {has(f.backwardMap, e)} :: has(f.backwardMap, e) == (old(has(f.backwardMap, e)) || e == start + size - 1)
+//@   ensures [bwdval] forall e common.Pgid {f.backwardMap[e]} :: e != start + size - 1 ==> f.backwardMap[e] == old(f.backwardMap[e])
 //@   ensures [bwdnew] f.backwardMap[start + size - 1] == size
 //@   ensures [count] f.freePagesCount == wrapu64(old(f.freePagesCount) + size)
 //@   ensures [same] f.forwardMap == old(f.forwardMap) && f.backwardMap == old(f.backwardMap) && f.freemaps == old(f.freemaps)
@@ -290,13 +292,119 @@ package freelist
 //@   requires sepfm(f) && has(f.freemaps, size) && (forall z uint64 :: has(f.freemaps, z) ==> allocated(f.freemaps[z]))
 //@   ensures [sep] sepfm(f)
 //@   ensures [fm] forall z uint64, s common.Pgid :: infm(f, z, s) == (old(infm(f, z, s)) && !(z == size && s == start))
+//@   ensures [fmvals] forall z uint64 :: has(f.freemaps, z) ==> old(has(f.freemaps, z)) && f.freemaps[z] == old(f.freemaps[z])
 //@   ensures [cache] f.cache == old(f.cache) && (forall p common.Pgid :: has(f.cache, p) == old(has(f.cache, p)))
 //@   requires f.forwardMap != nil && f.backwardMap != nil && f.freemaps != nil && f.forwardMap != f.backwardMap && size >= 1 && start + size <= 18446744073709551615
-//@   ensures [fwd] forall s common.Pgid :: has(f.forwardMap, s) == (old(has(f.forwardMap, s)) && s != start) && (s != start ==> f.forwardMap[s] == old(f.forwardMap[s]))
-//@   ensures [bwd] forall e common.Pgid :: has(f.backwardMap, e) == (old(has(f.backwardMap, e)) && e != start + size - 1) && (e != start + size - 1 ==> f.backwardMap[e] == old(f.backwardMap[e]))
+//@   ensures [fwd] forall s common.Pgid {has(f.forwardMap, s)} :: has(f.forwardMap, s) == (old(has(f.forwardMap, s)) && s != start)
+//@   ensures [fwdval] forall s common.Pgid {f.forwardMap[s]} :: s != start ==> f.forwardMap[s] == old(f.forwardMap[s])
+//@   ensures [bwd] forall e common.Pgid {has(f.backwardMap, e)} :: has(f.backwardMap, e) == (old(has(f.backwardMap, e)) && e != start + size - 1)
+//@   ensures [bwdval] forall e common.Pgid {f.backwardMap[e]} :: e != start + size - 1 ==> f.backwardMap[e] == old(f.backwardMap[e])
 //@   ensures [count] f.freePagesCount == wrapu64(old(f.freePagesCount) - size)
 //@   ensures [same] f.forwardMap == old(f.forwardMap) && f.backwardMap == old(f.backwardMap) && f.freemaps == old(f.freemaps)
 //@   modifies mapof(f.forwardMap), mapof(f.backwardMap), mapof(f.freemaps), f.freePagesCount, allmaps("common.Pgid", "struct{}")
+
+// Allocate (hashmap): the result is the start of a registered span of at least n pages; that span is replaced by its
+// remainder (if any), every other span is untouched, the pages taken leave the cache and are owned by txid.
+//@ pure func hmsame(f *hashMap) bool = f.forwardMap == old(f.forwardMap) && f.backwardMap == old(f.backwardMap) && f.freemaps == old(f.freemaps) && f.cache == old(f.cache) && f.allocs == old(f.allocs) && f.freePagesCount == old(f.freePagesCount) && (forall s common.Pgid :: has(f.forwardMap, s) == old(has(f.forwardMap, s)) && f.forwardMap[s] == old(f.forwardMap[s])) && (forall e common.Pgid :: has(f.backwardMap, e) == old(has(f.backwardMap, e)) && f.backwardMap[e] == old(f.backwardMap[e])) && (forall z uint64 :: has(f.freemaps, z) == old(has(f.freemaps, z)) && f.freemaps[z] == old(f.freemaps[z])) && (forall z uint64, s common.Pgid :: infm(f, z, s) == old(infm(f, z, s))) && (forall p common.Pgid :: has(f.cache, p) == old(has(f.cache, p))) && (forall p common.Pgid :: has(f.allocs, p) == old(has(f.allocs, p)) && f.allocs[p] == old(f.allocs[p]))
+
+//@ func (*hashMap).Allocate
+//@   props C09 C06
+//@   requires wfHM(f) && sepfm(f) && f.forwardMap != f.backwardMap && (forall z uint64 :: has(f.freemaps, z) ==> allocated(f.freemaps[z])) && f.cache != nil && f.allocs != nil && n >= 0
+//@   requires forall z uint64, s common.Pgid :: infm(f, z, s) <==> hmspan(f, s, z)
+//@   requires forall s common.Pgid :: has(f.forwardMap, s) ==> s >= 2 && s + f.forwardMap[s] <= 18446744073709551615
+//@   ensures [range] result == 0 || result >= 2
+//@   ensures [wasspan] result != 0 ==> old(has(f.forwardMap, result)) && old(f.forwardMap[result]) >= n
+//@   ensures [remainder] result != 0 && old(f.forwardMap[result]) > n ==> hmspan(f, result + n, old(f.forwardMap[result]) - n)
+//@   ensures [gone] result != 0 ==> !has(f.forwardMap, result)
+//@   ensures [others] result != 0 ==> forall s common.Pgid :: s != result && s != result + n ==> has(f.forwardMap, s) == old(has(f.forwardMap, s)) && f.forwardMap[s] == old(f.forwardMap[s])
+//@   ensures [nonew] result != 0 && old(f.forwardMap[result]) == n ==> has(f.forwardMap, result + n) == old(has(f.forwardMap, result + n))
+//@   ensures [unchanged] result == 0 ==> (forall s common.Pgid :: has(f.forwardMap, s) == old(has(f.forwardMap, s)) && f.forwardMap[s] == old(f.forwardMap[s])) && f.freePagesCount == old(f.freePagesCount)
+//@   ensures [count] result != 0 ==> f.freePagesCount == wrapu64(old(f.freePagesCount) - n)
+//@   ensures [owner] result != 0 ==> has(f.allocs, result) && f.allocs[result] == txid
+//@   ensures [uncached] result != 0 ==> forall k int :: 0 <= k && k < n ==> !has(f.cache, result + k)
+//@   ensures [cachekept] forall p common.Pgid :: has(f.cache, p) == (old(has(f.cache, p)) && !(result != 0 && result <= p && p < result + n))
+//@   ensures [nospan] result == 0 && n > 0 ==> forall s common.Pgid {f.forwardMap[s]} :: has(f.forwardMap, s) ==> f.forwardMap[s] < n     -- 0 is returned only when no span can serve the request
+//@   ensures [wf] wfHM(f)
+//@   loop 0 invariant [i] 0 <= i && i <= n
+//@   loop 0 invariant [cache] forall p common.Pgid :: has(f.cache, p) == (old(has(f.cache, p)) && !(pid <= p && p < pid + i))
+//@   loop 0 invariant [shared] f.cache == old(f.cache) && f.allocs == old(f.allocs)
+//@   loop 1 invariant [same] hmsame(f)
+//@   loop 1 invariant [seen] forall z uint64, s common.Pgid :: visited(z, 1) && z >= n ==> !infm(f, z, s)
+//@   loop 2 invariant [i] 0 <= i && i <= n
+//@   loop 2 invariant [cache] forall p common.Pgid :: has(f.cache, p) == (old(has(f.cache, p)) && !(pid <= p && p < pid + i))
+//@   loop 2 invariant [shared] f.cache == old(f.cache) && f.allocs == old(f.allocs)
+
+// hmrep: the three indexes agree and the per-size sets are separate objects
+//@ pure func hmrep(f *hashMap) bool = wfHM(f) && sepfm(f) && f.forwardMap != f.backwardMap && (forall z uint64, s common.Pgid :: infm(f, z, s) <==> hmspan(f, s, z)) && (forall s common.Pgid {f.forwardMap[s]} :: has(f.forwardMap, s) ==> s >= 2 && s + f.forwardMap[s] <= 18446744073709551615)
+
+// mergeWithExistingSpan(start, end): [start, end] is free of registered spans; afterwards one registered span covers it
+// (merged with the span ending at start-1 and the span starting at end+1 when they exist), every span not adjacent
+// to the range is untouched, the counter grows by the length of the range.
+//@ func (*hashMap).mergeWithExistingSpan
+//@   props C09
+//@   requires hmrep(f) && (forall z uint64 :: has(f.freemaps, z) ==> allocated(f.freemaps[z])) && start >= 2 && start <= end && end < 18446744073709551615
+//@   requires forall s common.Pgid {f.forwardMap[s]} :: has(f.forwardMap, s) ==> s + f.forwardMap[s] <= start || s > end
+//@   ensures [rep] hmrep(f)
+//@   ensures [covers] exists ns common.Pgid :: has(f.forwardMap, ns) && ns <= start && end < ns + f.forwardMap[ns]
+//@   witness [covers] ns := newStart
+//@   ensures [merged] let ns := (old(has(f.backwardMap, start - 1)) ? start - old(f.backwardMap[start - 1]) : start) in has(f.forwardMap, ns) && f.forwardMap[ns] == (start - ns) + (end - start + 1) + (old(has(f.forwardMap, end + 1)) ? old(f.forwardMap[end + 1]) : 0)
+//@   ensures [others] forall s common.Pgid {f.forwardMap[s]} :: old(has(f.forwardMap, s)) && (s + old(f.forwardMap[s]) < start || s > end + 1) ==> has(f.forwardMap, s) && f.forwardMap[s] == old(f.forwardMap[s])
+//@   ensures [nonew] forall s common.Pgid {has(f.forwardMap, s)} :: has(f.forwardMap, s) && (s + f.forwardMap[s] <= start || s > end) ==> old(has(f.forwardMap, s)) && f.forwardMap[s] == old(f.forwardMap[s])
+//@   ensures [count] f.freePagesCount == wrapu64(old(f.freePagesCount) + (end - start + 1))
+//@   ensures [cache] f.cache == old(f.cache) && (forall p common.Pgid :: has(f.cache, p) == old(has(f.cache, p)))
+//@   modifies mapof(f.forwardMap), mapof(f.backwardMap), mapof(f.freemaps), f.freePagesCount, allmaps("common.Pgid", "struct{}")
+
+// ---------------------------------------------------------------- small accessors of the two back ends
+//@ func (*array).FreeCount
+//@   props C09 C07
+//@   ensures result == len(f.ids)
+//@   modifies nothing
+
+//@ func (*array).freePageIds
+//@   props C09 C07
+//@   ensures len(result) == len(f.ids) && arrayof(result) == arrayof(f.ids) && offof(result) == offof(f.ids)
+//@   modifies nothing
+
+//@ func (*array).Init
+//@   props C09 C13
+//@   ensures [ids] len(f.ids) == len(ids) && arrayof(f.ids) == arrayof(ids) && offof(f.ids) == offof(ids)
+//@   ensures [reindexed] callstotal("(*shared).reindex") == old(callstotal("(*shared).reindex")) + 1
+
+//@ func (*shared).reindex
+//@   opaque
+//@   modifies t.cache, allmaps("common.Pgid", "struct{}")
+
+// NoSyncReload(pgIds) (used by rollback and by Reload): the list handed to Init contains no id that is pending under any
+// transaction - a page freed by a still-open or rolled-back-around transaction never re-enters the free set through a
+// reload - and nothing that was not in pgIds.
+//@ func (*shared).NoSyncReload
+//@   props C09 C08 C02 C13
+//@   requires t.pending != nil && (forall tid common.Txid :: has(t.pending, tid) ==> t.pending[tid] != nil)
+//@   ensures [init] callstotal("freelist.Interface.Init") == old(callstotal("freelist.Interface.Init")) + 1
+//@   callsite Interface.Init requires [nopending] forall k int :: 0 <= k && k < len(a_ids) ==> !has(pcache, a_ids[k])     -- no id handed to Init is in pcache ...
+//@   callsite Interface.Init requires [pcall] forall tid common.Txid, j int :: old(has(t.pending, tid)) && 0 <= j && j < old(len(t.pending[tid].ids)) ==> has(pcache, old(t.pending[tid].ids[j]))     -- ... and pcache holds every id pending under any transaction: together, no pending id re-enters the free set
+//@   callsite Interface.Init requires [subset] forall k int :: 0 <= k && k < len(a_ids) ==> inids(pgIds, a_ids[k])
+//@   loop 0 invariant [pc] forall tid common.Txid, j int :: visited(tid) && old(has(t.pending, tid)) && 0 <= j && j < old(len(t.pending[tid].ids)) ==> has(pcache, old(t.pending[tid].ids[j]))
+//@   loop 0 invariant [same] sameheap("txPending.ids") && sameelems("common.Pgid") && sameheap("shared.pending") && (forall tid common.Txid :: has(t.pending, tid) == old(has(t.pending, tid)) && t.pending[tid] == old(t.pending[tid])) && fresh(pcache)
+//@   loop 1 invariant [pc] forall tid common.Txid, j int :: visited(tid) && old(has(t.pending, tid)) && old(t.pending[tid]) != txp && 0 <= j && j < old(len(t.pending[tid].ids)) ==> has(pcache, old(t.pending[tid].ids[j]))
+//@   loop 1 invariant [cur] forall j int :: 0 <= j && j <= rangeindex ==> has(pcache, txp.ids[j])
+//@   loop 1 invariant [same] sameheap("txPending.ids") && sameelems("common.Pgid") && sameheap("shared.pending") && (forall tid common.Txid :: has(t.pending, tid) == old(has(t.pending, tid)) && t.pending[tid] == old(t.pending[tid])) && fresh(pcache) && txp != nil
+//@   loop 2 invariant [nopending] forall k int :: 0 <= k && k < len(a) ==> !has(pcache, a[k])
+//@   loop 2 invariant [subset] forall k int :: 0 <= k && k < len(a) ==> inids(pgIds, a[k])
+//@   loop 2 invariant [fresh] fresh(arrayof(a))
+//@   loop 2 invariant [pcall] forall tid common.Txid, j int :: old(has(t.pending, tid)) && 0 <= j && j < old(len(t.pending[tid].ids)) ==> has(pcache, old(t.pending[tid].ids[j]))
+
+// Reload(p) = Read(p) followed by NoSyncReload of exactly the free ids just read (so that pending ids are subtracted)
+//@ func Interface.freePageIds
+//@   modifies nothing
+
+//@ func (*shared).Reload
+//@   props C09 C08 C02 C13
+//@   requires p != nil && t.pending != nil && (forall tid common.Txid :: has(t.pending, tid) ==> t.pending[tid] != nil)
+//@   panics when p.flags != common.FreelistPageFlag || (p.count == 65535 && rawslice(p, 16, "common.Pgid")[0] > 9223372036854775807)
+//@   ensures [read] callstotal("(*shared).Read") == old(callstotal("(*shared).Read")) + 1 && lastarg("(*shared).Read", 1) == p
+//@   ensures [filtered] callstotal("(*shared).NoSyncReload") == old(callstotal("(*shared).NoSyncReload")) + 1 && lastargarr("(*shared).NoSyncReload", 1) == lastretarr("freelist.Interface.freePageIds", 0) && lastargoff("(*shared).NoSyncReload", 1) == lastretoff("freelist.Interface.freePageIds", 0) && lastarglen("(*shared).NoSyncReload", 1) == lastretlen("freelist.Interface.freePageIds", 0)
+//@   skip pre/NoSyncReload because Read re-initialises the free list through the interface (Init), whose contract does not carry the shape of the pending map; the pending map is not touched by Read/Init (only the cache is rebuilt)
 
 // ---------------------------------------------------------------- interface contracts (used at call sites in package bbolt)
 // The ghost gfree[obj] is the abstract free set of a freelist object.
